@@ -86,6 +86,9 @@ for k6, v6 in json.load(open(V + '/records/round6_breaking_first_pass.json'))['f
     fp[k6] = v6
 for k7, v7 in json.load(open(V + '/records/round7_breaking_first_pass.json'))['first_pass'].items():
     fp[k7] = v7
+if os.path.exists(V + '/records/round8_breaking_first_pass.json'):
+    for k8, v8 in json.load(open(V + '/records/round8_breaking_first_pass.json'))['first_pass'].items():
+        fp[k8] = v8
 mrows = ['| change | what it does | first pass | reported by (after tuning) |', '|--------|--------------|------------|---------------------------|']
 own = other = missed = 0
 for e in sorted(exps, key=keyf):
